@@ -12,9 +12,20 @@ Property theorems only; helper lemmas are in `Proofs/Cache.lean`, the model in `
   (`no_stale_after_reload`); in every sequential history the cached handler sends exactly what the
   cache-less handler sends (`cache_invisible_seq`);
 * the protocol before commit e06679e (insertion without the generation test) serves a stale response
-  in a concrete interleaving (`old_protocol_stale`).
+  in a concrete interleaving (`old_protocol_stale`);
+* the link to the handler model `Serve.serve` (`Model/Serve.lean`): for one database generation, one
+  client location and one answer limit, two queries with the same lower-cased name, type and class
+  whose spellings differ only in letter case get outcomes that are equal up to the letter case of
+  owner names (`serve_depends_on_key`, exact form `serve_depends_on_key_exact`) — for EVERY query
+  type. (Before commit "fix: HasRecord compares owner names case-insensitively" this failed for
+  ANY (255): the additional section depended on the spelling, and the cache made that visible; the
+  former witness is kept below as a positive example.) Hence `KeyDetermines` holds outright for the
+  machine whose `resp` is the (owner-lower-cased) handler model (`keyDetermines_serve`), and
+  `no_stale_after_reload_serve` / `cache_invisible_seq_serve` need no hypothesis about `resp` and
+  none about the query type.
 -/
 import DnsVerif.Proofs.Cache
+import DnsVerif.Proofs.ServeKey
 import DnsVerif.Generated.Facts
 
 namespace DnsVerif.Props.C12
@@ -130,6 +141,258 @@ theorem keyDetermines_of_components {X : Type} (kindOf : Query X → Kind) (wrs 
   intro g q q' hv hv' hnb hnb' hk
   obtain ⟨h1, h2, h3, h4⟩ := cacheKey_injective _ _ _ _ _ _ _ _ hv hv' hk
   exact hresp g q q' hnb hnb' h1 h2 h3 h4
+
+/-! ### the handler model behind `resp`
+
+`ServeKey.caseEq o o'` = same kind of outcome; for replies: same rcode and AA, authority section
+literally equal, answer records / answer address groups / additional address groups equal after
+lower-casing their owner names. `ServeKey.normalise` lower-cases every owner name.
+`ServeKey.weighted` = Go's `weighted` flag (some address family saw more than one candidate). -/
+
+open DnsVerif.ServeKey in
+/-- One database generation and one client location (`v`), one answer limit: two queries with the
+same packed lower-case name, type and class whose spellings lower-case to the same bytes get
+outcomes equal up to the letter case of owner names. Every query type, ANY included. -/
+theorem serve_depends_on_key (v : Serve.View) (q q' : Serve.Query)
+    (hn : q'.qname = q.qname) (ht : q'.qtype = q.qtype) (hc : q'.qclass = q.qclass)
+    (hm : q'.maxAns = q.maxAns) (hl : Name.toLower q.qnameOut = Name.toLower q'.qnameOut) :
+    caseEq (Serve.serve v q) (Serve.serve v q') :=
+  caseEq_of_outRel _ _ _ hl _ _ (serve_rel v q q' hn ht hc hm hl)
+
+open DnsVerif.ServeKey in
+/-- The exact relation (`ServeKey.RespRel`): both outcomes are of the same kind; for replies rcode,
+AA and the authority section are literally equal; every answer record and answer address group is
+owned by the spelling asked and the two lists are otherwise identical; the additional sections have
+the same length and are, position by position, literally the same group or (targets that are the
+query name itself: type-65 answers) the group owned by the spelling asked, otherwise identical
+(`RespRel.extraAll`, `ServeKey.ExtraRel`) — every query type. Nothing else of the spelling reaches
+the response. For query types other than ANY (the first argument of `OutRel`) the additional section
+is moreover literally equal as a whole, or every group in it is owned by the spelling asked
+(`RespRel.extra`). -/
+theorem serve_depends_on_key_exact (v : Serve.View) (q q' : Serve.Query)
+    (hn : q'.qname = q.qname) (ht : q'.qtype = q.qtype) (hc : q'.qclass = q.qclass)
+    (hm : q'.maxAns = q.maxAns) (hl : Name.toLower q.qnameOut = Name.toLower q'.qnameOut) :
+    OutRel (q.qtype ≠ 255) q.qnameOut q'.qnameOut (Serve.serve v q) (Serve.serve v q') :=
+  serve_rel v q q' hn ht hc hm hl
+
+open DnsVerif.ServeKey in
+/-- whether the response is subject to weighted selection is a function of the key as well -/
+theorem weighted_depends_on_key (v : Serve.View) (q q' : Serve.Query)
+    (hn : q'.qname = q.qname) (ht : q'.qtype = q.qtype) (hc : q'.qclass = q.qclass)
+    (hm : q'.maxAns = q.maxAns) (hl : Name.toLower q.qnameOut = Name.toLower q'.qnameOut) :
+    weighted (Serve.serve v q) = weighted (Serve.serve v q') :=
+  weighted_eq_of_caseEq _ _ (serve_depends_on_key v q q' hn ht hc hm hl)
+
+/-- what the handler model needs of a query besides the key components: the name as the client
+spelled it (wire form), and whatever else a query carries -/
+structure Asked (X : Type) where
+  qnameOut : Bytes
+  other : X
+
+/-- the handler-model query of a machine query; `packName` = `dns.PackDomainName` of `state.Name()`
+(any function: the packed lower-case name is a function of the key's name component) -/
+def queryOf {X : Type} (packName : Bytes → Bytes) (maxAns : Nat) (q : Query (Asked X)) : Serve.Query :=
+  { qname := packName q.name, qnameOut := q.rest.qnameOut, qtype := q.qtype, qclass := q.qclass,
+    maxAns := maxAns }
+
+/-- The protocol machine over the handler model: generation `g` is the store `store g`; the key is the
+real key; the response of generation `g` to `q` is the outcome of `Serve.serve` on that store for the
+client's location, owner names lower-cased. Address groups are candidate lists (weighted selection
+is not resolved in `Serve.serve`), so for `Kind.weighted` queries `resp` is the candidate set, not
+the selection: C12 excludes those through `insertable` (`wrs = false`: never inserted). `kindOf` and
+`wrs` are arbitrary. -/
+def serveParams {X : Type} (b : Loc.Backend) (store : Nat → Store) (packName : Bytes → Bytes) (maxAns : Nat)
+    (kindOf : Query (Asked X) → Kind) (wrs : Bool) (genCheck : Bool := true) :
+    Params (Query (Asked X)) Serve.Outcome :=
+  { keyOf := fun q => cacheKey q.loc q.qtype q.qclass q.name, kindOf := kindOf,
+    resp := fun g q => ServeKey.normalise (Serve.serve ⟨b, store g, q.loc⟩ (queryOf packName maxAns q)),
+    wrs := wrs, genCheck := genCheck }
+
+/-- the queries considered: 2-byte location id (the Go type is `[2]byte`) and a spelling that
+lower-cases to the packed name the handler looks up (`state.QName()` vs `state.Name()`); every
+query type -/
+def ServeValid {X : Type} (packName : Bytes → Bytes) (q : Query (Asked X)) : Prop :=
+  q.loc.length = 2 ∧ Name.toLower q.rest.qnameOut = packName q.name
+
+/-- `KeyDetermines` holds outright for the handler model: `cacheKey_injective` +
+`serve_depends_on_key`. -/
+theorem keyDetermines_serve {X : Type} (b : Loc.Backend) (store : Nat → Store) (packName : Bytes → Bytes)
+    (maxAns : Nat) (kindOf : Query (Asked X) → Kind) (wrs genCheck : Bool) :
+    KeyDetermines (serveParams b store packName maxAns kindOf wrs genCheck) (ServeValid packName) := by
+  intro g q q' hv hv' _ _ hk
+  obtain ⟨h1, h2, h3, h4⟩ := cacheKey_injective _ _ _ _ _ _ _ _ hv.1 hv'.1 hk
+  show ServeKey.normalise (Serve.serve ⟨b, store g, q.loc⟩ (queryOf packName maxAns q)) =
+    ServeKey.normalise (Serve.serve ⟨b, store g, q'.loc⟩ (queryOf packName maxAns q'))
+  rw [← h1]
+  apply ServeKey.normalise_eq_of_caseEq
+  apply serve_depends_on_key
+  · show packName q'.name = packName q.name
+    rw [h4]
+  · exact h2.symm
+  · exact h3.symm
+  · rfl
+  · show Name.toLower q.rest.qnameOut = Name.toLower q'.rest.qnameOut
+    rw [hv.2, hv'.2, h4]
+
+/-- `no_stale_after_reload` for the handler model, no hypothesis about the response function:
+whatever the interleaving, an answered query was sent — up to the letter case of owner names — the
+outcome the cache-less handler computes for this very query from a generation it could have read. -/
+theorem no_stale_after_reload_serve {X : Type} (b : Loc.Backend) (store : Nat → Store)
+    (packName : Bytes → Bytes) (maxAns : Nat) (kindOf : Query (Asked X) → Kind) (wrs : Bool)
+    (steps : List (Step (Query (Asked X)))) (hv : ∀ st ∈ steps, StepValid (ServeValid packName) st) :
+    ∀ f ∈ (run (serveParams b store packName maxAns kindOf wrs) steps).flights, ∀ o, f.phase = .sent o →
+      o.acq ≤ o.label ∧ o.label ≤ (run (serveParams b store packName maxAns kindOf wrs) steps).gen ∧
+      o.rsp = ServeKey.normalise (Serve.serve ⟨b, store o.label, f.q.loc⟩ (queryOf packName maxAns f.q)) :=
+  no_stale_after_reload _ _ rfl (keyDetermines_serve b store packName maxAns kindOf wrs true) steps hv
+
+/-- `cache_invisible_seq` for the handler model, no hypothesis about the response function. -/
+theorem cache_invisible_seq_serve {X : Type} (b : Loc.Backend) (store : Nat → Store)
+    (packName : Bytes → Bytes) (maxAns : Nat) (kindOf : Query (Asked X) → Kind) (wrs : Bool)
+    (h : List (Item (Query (Asked X)))) (hv : ∀ q, Item.query q ∈ h → ServeValid packName q) :
+    sentList (run (serveParams b store packName maxAns kindOf wrs) (seqSteps 0 h)) =
+      (uncachedSeq (serveParams b store packName maxAns kindOf wrs) 0 h).map some :=
+  cache_invisible_seq _ _ rfl (keyDetermines_serve b store packName maxAns kindOf wrs true) h hv
+
+/-! non-vacuity: a zone `b.` (NS, SOA) whose name `a.b.` has an address, an MX record pointing at
+`a.b.` itself and an HTTPS record; the name server `n.` has an address. v1 key layout. -/
+
+namespace Sample
+def nsRow : Bytes := [0,2,0x3d, 0,0,0,60, 0,0,0,0,0,0,0,0, 1,110,0]
+def soaRow : Bytes := [0,6,0x3d, 0,0,0,60, 0,0,0,0,0,0,0,0, 1,110,0,1,104,0, 0,0,0,1, 0,0,0,2, 0,0,0,3,
+  0,0,0,4, 0,0,0,5]
+def aRow (x : UInt8) : Bytes := [0,1,0x3d, 0,0,0,30, 0,0,0,0,0,0,0,0, 0,0,0,1, 10,0,0,x]
+def mxRow (target : Bytes) : Bytes := [0,15,0x3d, 0,0,0,60, 0,0,0,0,0,0,0,0, 0,10] ++ target
+def httpsRow : Bytes := [0,65,0x3d, 0,0,0,60, 0,0,0,0,0,0,0,0, 0,1,0]
+
+def zone : Store :=
+  [([0,0,1,98,0], [nsRow, soaRow]),
+   ([0,0,1,97,1,98,0], [aRow 1, mxRow [1,97,1,98,0], httpsRow]),
+   ([0,0,1,110,0], [aRow 9])]
+
+def view : Serve.View := ⟨.rdbV1, zone, [0, 0]⟩
+
+def ab : Bytes := [1,97,1,98,0]       -- a.b.
+def Ab : Bytes := [1,65,1,98,0]       -- A.b.
+
+def ask (spelling : Bytes) (qtype : Nat) : Serve.Query :=
+  { qname := ab, qnameOut := spelling, qtype := qtype, qclass := 1, maxAns := 1 }
+
+/-- machine queries: no location, class IN, presentation name `a.b.`, packed by `putdom` -/
+def mq (spelling : Bytes) (qtype : Nat) : Query (Asked Unit) :=
+  { loc := [0, 0], qtype := qtype, qclass := 1, name := [97, 46, 98, 46], rest := ⟨spelling, ()⟩ }
+
+def P : Params (Query (Asked Unit)) Serve.Outcome :=
+  serveParams .rdbV1 (fun _ => zone) Name.putdom 1 (fun _ => .plain) false
+end Sample
+
+open Sample DnsVerif.ServeKey in
+/-- an HTTPS query spelled `A.b.` and one spelled `a.b.`: the answer record and the additional
+address group carry the spelling asked — the outcomes differ — and they are `caseEq` -/
+example :
+    Serve.serve view (ask Ab 65) = .reply
+      { rcode := 0, aa := true, answer := [⟨Ab, 65, 1, 60, [0, 1, 0]⟩], answerAddrs := [], ns := [],
+        extra := [⟨Ab, 1, 1, [⟨30, 1, [10, 0, 0, 1]⟩], 1⟩] } ∧
+    Serve.serve view (ask ab 65) = .reply
+      { rcode := 0, aa := true, answer := [⟨ab, 65, 1, 60, [0, 1, 0]⟩], answerAddrs := [], ns := [],
+        extra := [⟨ab, 1, 1, [⟨30, 1, [10, 0, 0, 1]⟩], 1⟩] } ∧
+    caseEq (Serve.serve view (ask Ab 65)) (Serve.serve view (ask ab 65)) := by
+  refine ⟨by decide +kernel, by decide +kernel, serve_depends_on_key view _ _ rfl rfl rfl rfl ?_⟩
+  decide
+
+open Sample in
+example : ServeValid Name.putdom (mq Ab 65) ∧ ServeValid Name.putdom (mq ab 65) ∧
+    ServeValid Name.putdom (mq Ab 255) ∧ ServeValid Name.putdom (mq ab 255) := by
+  unfold ServeValid; decide
+
+open Sample DnsVerif.ServeKey in
+/-- Query type ANY, the former witness. Before commit "fix: HasRecord compares owner names
+case-insensitively" this was false: `HasRecord` compared owner names case-sensitively; asked
+`a.b. ANY`, the handler found the address of the MX target `a.b.` already in the answer section and
+added nothing; asked `A.b. ANY`, the answer's address record was owned by `A.b.`, the MX target
+`a.b.` was "missing", and its address was added to the additional section
+(`extra = [⟨a.b., A, IN, [10.0.0.1], 1⟩]`), so the two outcomes were not `caseEq`
+(then theorem `serve_any_case_sensitive`). Now both spellings get an empty additional section and
+the outcomes are `caseEq` — by the theorem. -/
+example :
+    caseEq (Serve.serve view (ask Ab 255)) (Serve.serve view (ask ab 255)) ∧
+    Serve.serve view (ask Ab 255) = .reply
+      { rcode := 0, aa := true,
+        answer := [⟨Ab, 15, 1, 60, [0, 10, 1, 97, 1, 98, 0]⟩, ⟨Ab, 65, 1, 60, [0, 1, 0]⟩],
+        answerAddrs := [⟨Ab, 1, 1, [⟨30, 1, [10, 0, 0, 1]⟩], 1⟩], ns := [], extra := [] } ∧
+    Serve.serve view (ask ab 255) = .reply
+      { rcode := 0, aa := true,
+        answer := [⟨ab, 15, 1, 60, [0, 10, 1, 97, 1, 98, 0]⟩, ⟨ab, 65, 1, 60, [0, 1, 0]⟩],
+        answerAddrs := [⟨ab, 1, 1, [⟨30, 1, [10, 0, 0, 1]⟩], 1⟩], ns := [], extra := [] } := by
+  refine ⟨serve_depends_on_key view _ _ rfl rfl rfl rfl (by decide), by decide +kernel, by decide +kernel⟩
+
+namespace Sample
+/-- the address of `a.b.` with weight 0 (never served, so never "already present") -/
+def aRow0 : Bytes := [0,1,0x3d, 0,0,0,30, 0,0,0,0,0,0,0,0, 0,0,0,0, 10,0,0,1]
+def zone0 : Store :=
+  [([0,0,1,98,0], [nsRow, soaRow]),
+   ([0,0,1,97,1,98,0], [aRow0, mxRow [1,97,1,98,0], httpsRow])]
+def view0 : Serve.View := ⟨.rdbV1, zone0, [0, 0]⟩
+/-- the additional section of a reply -/
+def extraOf : Serve.Outcome → Option (List Serve.AddrGroup)
+  | .reply r => some r.extra
+  | _ => none
+def g0 (owner : Bytes) : Serve.AddrGroup := ⟨owner, 1, 1, [⟨30, 0, [10, 0, 0, 1]⟩], 1⟩
+end Sample
+
+open Sample DnsVerif.ServeKey in
+/-- ANY with a non-empty additional section (the address has weight 0, so `HasRecord` never finds
+it served): the MX target `a.b.` is taken from the rdata, the HTTPS target is the spelling asked.
+The two additional sections are `ExtraRel` — position by position the same group or the group under
+the other spelling — hence `caseEq`; they are neither literally equal nor renamed as a whole, which
+is why the sharper clause `RespRel.extra` of `serve_depends_on_key_exact` is claimed for query types
+other than ANY only. -/
+example :
+    extraOf (Serve.serve view0 (ask Ab 255)) = some [g0 ab, g0 Ab] ∧
+    extraOf (Serve.serve view0 (ask ab 255)) = some [g0 ab, g0 ab] ∧
+    ExtraRel Ab ab [g0 ab, g0 Ab] [g0 ab, g0 ab] ∧
+    ¬ ([g0 ab, g0 ab] = [g0 ab, g0 Ab] ∨
+       ([g0 ab, g0 ab] = [g0 ab, g0 Ab].map (sn ab) ∧ ∀ g ∈ [g0 ab, g0 Ab], g.name = Ab)) ∧
+    caseEq (Serve.serve view0 (ask Ab 255)) (Serve.serve view0 (ask ab 255)) := by
+  refine ⟨by decide +kernel, by decide +kernel, by decide +kernel, by decide +kernel,
+    serve_depends_on_key view0 _ _ rfl rfl rfl rfl (by decide)⟩
+
+open Sample in
+/-- non-vacuity of `cache_invisible_seq_serve`: `A.b. HTTPS`, then `a.b. HTTPS` (a hit on the entry
+the first spelling left), a reload, `a.b. HTTPS` again (a miss) -/
+example :
+    let h : List (Item (Query (Asked Unit))) := [.query (mq Ab 65), .query (mq ab 65), .reload, .query (mq ab 65)]
+    sentList (run P (seqSteps 0 h)) = (uncachedSeq P 0 h).map some ∧
+    (run P (seqSteps 0 h)).flights.map (fun f => match f.phase with | .sent o => o.hit | _ => false)
+      = [false, true, false] := by
+  intro h
+  refine ⟨cache_invisible_seq_serve _ _ _ _ _ _ h ?_, by decide +kernel⟩
+  intro q hq
+  have : q = mq Ab 65 ∨ q = mq ab 65 := by
+    simp only [h, List.mem_cons, Item.query.injEq, List.mem_nil_iff, or_false, reduceCtorEq, false_or] at hq
+    rcases hq with hq | hq | hq
+    · exact Or.inl hq
+    · exact Or.inr hq
+    · exact Or.inr hq
+  rcases this with rfl | rfl <;> (unfold ServeValid; decide)
+
+open Sample in
+/-- … and the former witness of a visible cache, `A.b. ANY` then `a.b. ANY`: the second query hits
+the entry of the first. Before commit "fix: HasRecord compares owner names case-insensitively" this
+was false (then theorem `cache_visible_any`): it was sent a response with an additional address
+record that the cache-less handler would not have sent for its spelling. Now what it is sent is what
+the cache-less handler sends — by the theorem. -/
+example :
+    let h : List (Item (Query (Asked Unit))) := [.query (mq Ab 255), .query (mq ab 255)]
+    sentList (run P (seqSteps 0 h)) = (uncachedSeq P 0 h).map some ∧
+    (run P (seqSteps 0 h)).flights.map (fun f => match f.phase with | .sent o => o.hit | _ => false)
+      = [false, true] := by
+  intro h
+  refine ⟨cache_invisible_seq_serve _ _ _ _ _ _ h ?_, by decide +kernel⟩
+  intro q hq
+  have : q = mq Ab 255 ∨ q = mq ab 255 := by
+    simp only [h, List.mem_cons, Item.query.injEq, List.mem_nil_iff, or_false] at hq
+    exact hq
+  rcases this with rfl | rfl <;> (unfold ServeValid; decide)
 
 /-! ### non-vacuity and the repaired defect -/
 
